@@ -182,7 +182,11 @@ def build_artefact(jobs_by_id, recs):
         for d in rec["diags"]:
             # positions remapped by //line directives (and cgo) are outside the property
             names = [d["pos"]["file"]] + [e[k]["file"] for fx in d["fixes"] for e in fx["edits"] for k in ("pos", "end")]
-            if rec["remap"] and (any(n not in fidx for n in names) or any(fi["linedir"] for fi in rec["files"] if fi["name"] in names)):
+            # A //line directive may point into another, real file of the package (generated.go pretending that its
+            # code came from input.go): the reported file then exists and has no directive itself.  Which physical
+            # file a position came from cannot be told from the report, so every problem of a package that contains a
+            # file with a line directive (or cgo) is left out.
+            if any(fi["linedir"] for fi in rec["files"]) or (rec["remap"] and any(n not in fidx for n in names)):
                 art.excluded_remap += 1
                 continue
             did = len(art.diags) + 1
